@@ -455,7 +455,9 @@ func (c14) Run(plan interface{}, schedSeed uint64, replay []simrt.Choice, lenien
 	}
 	if p.Bystander && v.Class == "" {
 		v.Probe("bystander-on-another-channel")
-		byBound := bound + time.Duration(p.ReadTimeoutS)*time.Second + 2*cost
+		// (the two goroutines take their errors from one queue: the consumer of the response may be handed up to ten
+		// of them in a row - one per read timeout / EOF poll - before the bystander gets one)
+		byBound := bound + 11*(time.Duration(p.ReadTimeoutS)*time.Second+2*cost)
 		switch {
 		case !got.BystanderDone:
 			v.Violate("no-error", "no error after transport failure: a receive on another channel never returned", "%s: a goroutine waiting on another channel of the connection never returned", where)
